@@ -36,7 +36,9 @@ def configs(tier):
     extra = 4 if tier == 'thorough' else 3
     out = []
     for st in (True, False):
-        for mode in ('unique', 'dup'):
+        for mode in ('unique', 'dup', 'ynone'):
+            if mode == 'ynone' and not st:
+                continue        # unlabelled arrivals (y=None) mixed into a labelled stream
             dd = extra if mode == 'unique' else extra - 1
             out.append(dict(cls='Batch', k=None, st=st, p=None, depth=3 + dd - 1, mode=mode))
             out.append(dict(cls='Sequence', k=1, st=st, p=None, depth=1 + dd, mode=mode))
@@ -115,7 +117,7 @@ def check_state(cfg, storage, hist, tag):
 
 def driver_for(cfg, obs):
     depth = cfg['depth']
-    unique = cfg['mode'] == 'unique'
+    unique = cfg['mode'] in ('unique', 'ynone')
 
     def driver(run):
         storage = make(cfg)
@@ -131,6 +133,8 @@ def driver_for(cfg, obs):
             else:
                 x = {'v': run.pick((0, 1), 'letter')}
             y = 100 + t
+            if cfg['mode'] == 'ynone' and run.pick((False, True), 'y-is-None'):
+                y = None
             before = [fz(r) for r in list(storage.get_data()[0])]
             storage.update(dict(x), y)
             hist.append((x, y))
